@@ -1619,8 +1619,11 @@ pub fn run_layer6(s: &mut Sink, eng: Eng, g: &mut u64) {
     }
     let rp0 = json!({"kind":"isa-l6","eng":eng.name()});
     s.mark(idx, &format!("{}/reuse", eng.name()), &rp0);
-    run_group(s, eng, "reuse", &rp0, move |cs| l6_check(cs, eng));
-    s.done("layer 6: successive executions on one VM object");
+    run_group(s, eng, "reuse", &rp0, move |cs| {
+        l6_check(cs, eng);
+        l6_side_effects(cs, eng);
+    });
+    s.done("layer 6: successive executions on one VM object; helper side effects on the packet; helper re-binding");
 }
 
 fn l6_check(s: &mut Sink, eng: Eng) {
@@ -1682,6 +1685,108 @@ fn l6_check(s: &mut Sink, eng: Eng) {
     }
 }
 
+/// Store-free programs in which a helper rewrites a packet byte between two loads of it
+/// (straight line and in a loop), and a helper id re-bound between two compilations.
+fn l6_side_effects(s: &mut Sink, eng: Eng) {
+    fn hf(_: u64, _: u64, _: u64, _: u64, _: u64) -> u64 { 0x1111 }
+    fn hg(_: u64, _: u64, _: u64, _: u64, _: u64) -> u64 { 0x2222 }
+    let load = |kind: u8, k: i32| -> Vec<I> {
+        match kind {
+            0 => vec![I::new(0x30, 0, 0, 0, k)],
+            1 => vec![isa::mov64i(2, 0), I::new(0x50, 0, 2, 0, k)],
+            _ => vec![isa::ldxb(0, 6, k as i16)],
+        }
+    };
+    let frob = |k: i32| -> Vec<I> { vec![isa::mov64r(1, 6), isa::add64i(1, k), isa::mov64i(2, 1), isa::call_helper(2)] };
+    let image: Vec<u8> = (0..16u8).map(|x| x.wrapping_mul(37).wrapping_add(0x12)).collect();
+    let pkt = Buf::new(16, 0);
+    let run = |vmx: &mut AnyVm, e: Eng| -> (Out, Vec<u8>) {
+        pkt.fill(&image);
+        let o = vmx.exec_out(e, pkt.raw(), vm::empty_raw());
+        (o, pkt.bytes().to_vec())
+    };
+    for l1 in 0..3u8 {
+        for l2 in 0..3u8 {
+            for k in [0i32, 5] {
+                for shape in 0..2u8 {
+                    let mut p = vec![isa::mov64r(6, 1)];
+                    if shape == 0 {
+                        p.extend(load(l1, k));
+                        p.push(isa::mov64r(7, 0));
+                        p.extend(frob(k));
+                        p.extend(load(l2, k));
+                        p.push(I::new(0x67, 7, 0, 0, 8));
+                        p.push(I::new(0x4f, 0, 7, 0, 0));
+                    } else {
+                        p.push(isa::mov64i(8, 0));
+                        p.push(isa::mov64i(9, 2));
+                        let top = p.len();
+                        p.extend(load(l1, k));
+                        p.push(I::new(0x67, 8, 0, 0, 8));
+                        p.push(I::new(0x4f, 8, 0, 0, 0));
+                        p.extend(frob(k));
+                        p.extend(load(l2, k));
+                        p.push(I::new(0x0f, 8, 0, 0, 0));
+                        p.push(isa::add64i(9, -1));
+                        let here = p.len();
+                        p.push(I::new(0x55, 9, 0, (top as i64 - here as i64 - 1) as i16, 0));
+                        p.push(isa::mov64r(0, 8));
+                    }
+                    p.push(isa::EXIT);
+                    let bytes = isa::enc(&p);
+                    let rp = json!({"kind":"isa-l6","eng":eng.name()});
+                    let mk = || -> Result<AnyVm, String> {
+                        let mut v = AnyVm::new(VmKind::Raw, Some(&bytes))?;
+                        v.register_helper(2, rbpf::helpers::memfrob)?;
+                        Ok(v)
+                    };
+                    let mut vi = match mk() { Ok(v) => v, Err(e) => { s.violation("verifier/side-effect/rejects-template", e, rp); return; } };
+                    let want = run(&mut vi, Eng::Interp);
+                    let mut vc = mk().unwrap();
+                    if let Err(e) = vc.compile(eng) {
+                        s.violation(&format!("{}/side-effect/compile-err", eng.name()), e, rp);
+                        return;
+                    }
+                    let got = run(&mut vc, eng);
+                    s.count("evaluations", 1);
+                    s.count("states", 1);
+                    s.count("transitions", p.len() as u64);
+                    s.count("traces_validated_against_impl", 1);
+                    s.nontrivial_hashed(fnv(&bytes));
+                    if got != want {
+                        s.violation(&format!("{}/side-effect/value-mismatch", eng.name()), format!("store-free program with a helper (memfrob) rewriting packet byte {k} between two loads of it ({}): returned {} / packet {}, the interpreter returns {} / packet {}", isa::listing(&p).join(" | "), show_out(&got.0), hex(&got.1), show_out(&want.0), hex(&want.1)), rp);
+                    }
+                }
+            }
+        }
+    }
+    // helper id re-bound between two compilations
+    for kind in [VmKind::NoData, VmKind::Raw, VmKind::Mbuff, VmKind::Fixed(0x40, 0x50)] {
+        let bytes = isa::enc(&[isa::mov64i(1, 1), isa::call_helper(3), isa::EXIT]);
+        let rp = json!({"kind":"isa-l6","eng":eng.name()});
+        let r = catch(|| -> Result<Out, String> {
+            let mut v = AnyVm::new(kind, Some(&bytes))?;
+            v.register_helper(3, hf)?;
+            v.compile(eng)?;
+            v.register_helper(3, hg)?;
+            v.compile(eng)?;
+            let mb = Buf::new(16, 0);
+            pkt.fill(&image);
+            let mem = if matches!(kind, VmKind::NoData) { vm::empty_raw() } else { pkt.raw() };
+            let mbr = if matches!(kind, VmKind::Mbuff) { mb.raw() } else { vm::empty_raw() };
+            Ok(v.exec_out(eng, mem, mbr))
+        });
+        s.count("evaluations", 1);
+        s.count("states", 1);
+        s.count("transitions", 5);
+        s.count("traces_validated_against_impl", 1);
+        match r {
+            Ok(Ok(Out::Ok(0x2222))) => {}
+            other => s.violation(&format!("{}/rebind/value-mismatch", eng.name()), format!("register_helper(3, f); compile; register_helper(3, g); compile; execute on a {} VM gave {:?}, the interpreter calls g (0x2222)", vm::kind_name(kind).split(':').next().unwrap(), other.map(|x| x.map(|o| show_out(&o)))), rp),
+        }
+    }
+}
+
 fn show_out(o: &Out) -> String {
     match o {
         Out::Ok(v) => format!("{v:#x}"),
@@ -1692,7 +1797,10 @@ fn show_out(o: &Out) -> String {
 pub fn replay_l5(v: &Value) -> Vec<String> {
     let eng = Eng::parse(v["eng"].as_str().unwrap());
     let mut s = Sink::new("replay", Tier::Quick, 0, 1, None, None, 3600);
-    run_group(&mut s, eng, "reuse", &v.clone(), move |cs| l6_check(cs, eng));
+    run_group(&mut s, eng, "reuse", &v.clone(), move |cs| {
+        l6_check(cs, eng);
+        l6_side_effects(cs, eng);
+    });
     let r = s.finish();
     r["violations"].as_array().unwrap().iter().map(|x| format!("{}: {}", x["sig"].as_str().unwrap(), x["detail"].as_str().unwrap())).collect()
 }
